@@ -248,6 +248,55 @@ def h_posterior(ctx, D, n_regions, surrogate):
         ctx.claim('weight_%d_is_indicator_times_prior_over_region_density' % j, close(w[j], want, 1e-7))
 
 
+class _NoBar:
+    def reinit_progressbar(self, *a, **k):
+        pass
+
+    def update_progressbar(self, *a, **k):
+        pass
+
+
+def h_posterior_sample(ctx, D, n_regions, n2=1):
+    """The public RomcPosterior.sample(): three DIFFERENT eps values (filter / region / cut-off), the cut-off optionally
+    reset afterwards (solver-chosen); weights, distances and points of every region against the definition."""
+    with env(ctx):
+        boxes = []
+        for r in range(n_regions):
+            R = [[1 if i == j else 0 for j in range(D)] for i in range(D)]
+            c = [ctx.real('c%d_%d' % (r, i)) for i in range(D)]
+            lim = [[ctx.real('lo%d_%d' % (r, i), None, -1), ctx.real('hi%d_%d' % (r, i), 1, None)] for i in range(D)]
+            boxes.append((romc.NDimBoundingBox(np.array(R, dtype=float), symnd(ctx, c), symnd(ctx, lim)), c, lim))
+        funcs = [lambda th, r=r: ctx.apply_uf('OBJ%d_%d' % (r, D), list(th)) for r in range(n_regions)]
+        other = [lambda th, r=r: ctx.apply_uf('OTHER%d_%d' % (r, D), list(th)) for r in range(n_regions)]
+        eps_filter, eps_region, eps_cutoff = ctx.real('eps_filter'), ctx.real('eps_region'), ctx.real('eps_cutoff')
+        prior = Prior(ctx, D)
+        rp = post.RomcPosterior([b for b, _, _ in boxes], funcs, other, other, other, list(range(n_regions)), False, prior,
+                                None, None, eps_filter, eps_region, eps_cutoff)
+        rp.progress_bar = _NoBar()
+        cutoff = eps_cutoff
+        if ctx.choice('cutoff_is_reset', 2):
+            cutoff = ctx.real('eps_cutoff_new')
+            rp.reset_eps_cutoff(cutoff)
+        theta, w, dists = rp.sample(n2, seed=None)
+    ctx.claim('sample_shapes', np.shape(theta) == (n_regions, n2, D) and np.shape(w) == (n_regions, n2) and
+              np.shape(dists) == (n_regions * n2,))
+    for r in range(n_regions):
+        b, c, lim = boxes[r]
+        vol = 1
+        for lo, hi in lim:
+            vol = vol * (hi - lo)
+        for j in range(n2):
+            pt = [theta[r, j, i] for i in range(D)]
+            inside = And(*[And(c[i] + lim[i][0] <= pt[i], pt[i] <= c[i] + lim[i][1]) for i in range(D)])
+            ctx.claim('region_%d_point_%d_lies_in_its_region' % (r, j), inside)
+            prj = ctx.apply_uf('PRIOR%d' % D, pt) if ctx.symbolic else abs(ctx.apply_uf('PRIOR%d' % D, pt))
+            dist = funcs[r](pt)
+            ctx.claim('region_%d_distance_%d_is_the_objective_at_the_point' % (r, j), close(dists[r * n2 + j], dist, 1e-9))
+            want = If(dist < cutoff, prj * vol, 0)
+            ctx.claim('region_%d_weight_%d_is_cutoff_indicator_times_prior_over_region_density' % (r, j),
+                      close(w[r, j], want, 1e-7))
+
+
 HARNESSES = [
     H('box_d1', h_box, dict(D=1), bounds='D=1, rotation +-1, 2 samples, limits possibly degenerate'),
     H('box_d2', h_box, dict(D=2, n2=1), bounds='D=2, arbitrary orthonormal rotation, 1 sample', path_timeout=300),
@@ -258,6 +307,10 @@ HARNESSES = [
     H('line_search_d1_K3_r3', h_line_search, dict(D=1, K=3, rep_lim=3), bounds='D=1, K=3, rep_lim=3', tiers=('thorough',)),
     H('posterior_d1_r2', h_posterior, dict(D=1, n_regions=2, surrogate=False), bounds='D=1, 2 problems, true objectives'),
     H('posterior_d1_r2_surrogate', h_posterior, dict(D=1, n_regions=2, surrogate=True), bounds='D=1, 2 problems, local surrogates'),
+    H('posterior_sample_d1_r2', h_posterior_sample, dict(D=1, n_regions=2),
+      bounds='D=1, 2 regions, 1 point per region, distinct eps_filter/eps_region/eps_cutoff, cut-off optionally reset'),
+    H('posterior_sample_d2_r1_n2', h_posterior_sample, dict(D=2, n_regions=1, n2=2),
+      bounds='D=2, 1 region, 2 points, distinct eps values, cut-off optionally reset', tiers=('thorough',)),
     H('posterior_d2_r2_surrogate', h_posterior, dict(D=2, n_regions=2, surrogate=True), bounds='D=2, 2 problems, surrogates',
       tiers=('thorough',)),
 ]
